@@ -6,7 +6,7 @@ From BV Require Import Alg.Field Alg.Dlog Sem.Base Model.Oracles Model.Helpers M
      Model.Core Model.Protocols Model.Api Extract.Exec.
 Extraction Language OCaml.
 Extraction "model.ml"
-  Zr zr_repr zr_unrepr zr_of_u64 r_mod
+  Zr zr_repr zr_unrepr zr_sdec zr_of_u64 r_mod
   G1Impl G2Impl
   byte_xor is_zero_bytes scalar_from_hkdf_bytes hash_to_scalar
   scalar_to_le_bytes scalar_to_be_bytes scalar_from_le_bytes scalar_from_be_bytes
